@@ -4,7 +4,9 @@ go 1.23
 
 require (
 	github.com/consensys/gnark v0.8.0
+	github.com/consensys/gnark-crypto v0.9.1
 	github.com/iden3/go-iden3-crypto v0.0.13
+	github.com/reilabs/gnark-lean-extractor/v2 v2.1.0
 	golang.org/x/crypto v0.25.0
 	pgregory.net/rapid v1.3.0
 	worldcoin/gnark-mbu v0.0.0
@@ -41,7 +43,6 @@ require (
 	github.com/blang/semver/v4 v4.0.0 // indirect
 	github.com/cespare/xxhash/v2 v2.2.0 // indirect
 	github.com/consensys/bavard v0.1.13 // indirect
-	github.com/consensys/gnark-crypto v0.9.1 // indirect
 	github.com/davecgh/go-spew v1.1.2-0.20180830191138-d8f796af33cc // indirect
 	github.com/dustin/go-humanize v1.0.1 // indirect
 	github.com/eapache/queue/v2 v2.0.0-20230407133247-75960ed334e4 // indirect
@@ -68,7 +69,6 @@ require (
 	github.com/prometheus/client_model v0.3.0 // indirect
 	github.com/prometheus/common v0.37.0 // indirect
 	github.com/prometheus/procfs v0.8.0 // indirect
-	github.com/reilabs/gnark-lean-extractor/v2 v2.1.0 // indirect
 	github.com/rs/zerolog v1.29.0 // indirect
 	github.com/ryanuber/go-glob v1.0.0 // indirect
 	github.com/secure-systems-lab/go-securesystemslib v0.7.0 // indirect
